@@ -4,6 +4,7 @@ import (
 	"context"
 	"fmt"
 	"reflect"
+	"strings"
 	"sync"
 
 	admissionv1 "k8s.io/api/admission/v1"
@@ -30,6 +31,7 @@ func (c clusterLister) ListPods(ctx context.Context, ns string) ([]*corev1.Pod, 
 func runC15(c *Ctx) {
 	runC15RealDeps(c)
 	runC15Webhook(c)
+	runFaultHistories(c)
 	batches, per := 40, 48
 	if c.Thorough {
 		batches = 600
@@ -133,6 +135,92 @@ func runC15(c *Ctx) {
 		}
 		if b == 0 {
 			c.Sample(descs[0])
+		}
+	}
+}
+
+// runFaultHistories: one long-lived controller that first suffers the same fault several times in a row (pod listing fails,
+// namespace lookup fails, object undecodable, request already cancelled, dry run cancelled half-way) and then serves ordinary
+// requests of every kind: each of those must be answered as by a fresh controller — a failed request leaves nothing behind
+// (no slot of a limiter, no half-filled cache, no sticky error).
+func runFaultHistories(c *Ctx) {
+	r := NewRng(c.Seed + 1516)
+	rounds := sizes(c, 6, 60)
+	for round := 0; round < rounds; round++ {
+		lead := genAdmitCase(r.Fork(), round, AdmitKnobs{Kind: "ns", FaultPct: 0, SynPct: 0, SubPct: 0, ExemptHeavy: false,
+			Pods: func(r *Rng) []*corev1.Pod { return genPopulation(r, 2+r.Intn(6), []string{"exrc"}) }})
+		lead.ExNS, lead.ExUsers = []string{"exns"}, []string{"exuser"}
+		mkNS := func(i int, fault string) *AdmitCase {
+			a := genAdmitCase(r.Fork(), 1000+i, AdmitKnobs{Kind: "ns", FaultPct: 0, SynPct: 0, SubPct: 0, Shared: lead,
+				Pods: func(r *Rng) []*corev1.Pod { return genPopulation(r, 2+r.Intn(6), []string{"exrc"}) }})
+			a.Op, a.Sub, a.NS, a.User, a.Name = admissionv1.Update, "", "team", "u", "team"
+			a.Obj = ObjSpec{Kind: "namespace", NSName: "team", Labels: map[string]string{api.EnforceLevelLabel: pick(r, []string{"baseline", "restricted"})}}
+			a.Old = ObjSpec{Kind: "namespace", NSName: "team", Labels: map[string]string{}}
+			a.ExpireAfter, a.Remaining, a.CtxCancelled, a.ListErr, a.NSErr = -1, 0, false, false, false
+			switch fault {
+			case "listErr":
+				a.ListErr = true
+			case "cancelledHalfWay":
+				a.ExpireAfter = 1
+			case "cancelled":
+				a.CtxCancelled = true
+			case "objErr":
+				a.Obj = ObjSpec{Kind: "err"}
+			}
+			return a
+		}
+		mkPod := func(i int, kind, fault string) *AdmitCase {
+			a := genAdmitCase(r.Fork(), 2000+i, AdmitKnobs{Kind: kind, FaultPct: 0, SynPct: 0, SubPct: 0, Shared: lead})
+			a.NS, a.User, a.Sub = "team", "u", ""
+			a.NSLabels = map[string]string{api.EnforceLevelLabel: "baseline", api.WarnLevelLabel: "restricted", api.AuditLevelLabel: "restricted"}
+			a.ExpireAfter, a.Remaining, a.CtxCancelled, a.NSErr = -1, 0, false, false
+			switch fault {
+			case "nsErr":
+				a.NSErr, a.NSErrKind = true, r.Intn(len(nsErrKinds))
+			case "objErr":
+				a.Obj = ObjSpec{Kind: "err"}
+			case "cancelled":
+				a.CtxCancelled = true
+			}
+			return a
+		}
+		fault := pick(r, []string{"listErr", "listErr", "cancelledHalfWay", "cancelled", "objErr", "nsErr"})
+		var group []*AdmitCase
+		group = append(group, lead)
+		nFaults := 4 + r.Intn(5)
+		for i := 0; i < nFaults; i++ {
+			switch fault {
+			case "nsErr":
+				group = append(group, mkPod(i, pick(r, []string{"pod", "ctl"}), fault))
+			case "objErr", "cancelled":
+				if r.Bool() {
+					group = append(group, mkPod(i, pick(r, []string{"pod", "ctl"}), fault))
+				} else {
+					group = append(group, mkNS(i, fault))
+				}
+			default:
+				group = append(group, mkNS(i, fault))
+			}
+		}
+		first := len(group)
+		group = append(group, mkNS(100, ""), mkPod(101, "pod", ""), mkPod(102, "ctl", ""), mkNS(103, ""))
+		order := make([]int, len(group))
+		for i := range order {
+			order[i] = i
+		}
+		hist := runHistory(group, order)
+		c.Tag("faultHistory." + fault)
+		for j := first; j < len(group); j++ {
+			fresh := group[j].runGo()
+			c.Eval(1)
+			if fresh.Panic != "" || hist[j].Panic != "" {
+				continue
+			}
+			if d := diffAdmit(fresh, hist[j], "allowed code causes message warnings ann audit evalCalls listCalls metrics"); len(d) > 0 {
+				c.Violate(Finding{Desc: fmt.Sprintf("after %d requests that failed the same way (%s), an ordinary %s request to the same controller is answered differently from the request alone on a fresh controller: %s", nFaults, fault, group[j].Res, strings.Join(d, "; ")),
+					Key: "depends-on-failed-requests", Input: J{"fault": fault, "failedRequests": nFaults, "request": group[j].opJSON()["req"]}, Go: J{"afterTheFailures": hist[j], "alone": fresh}})
+				break
+			}
 		}
 	}
 }
